@@ -23,11 +23,50 @@ EXTRA = ["[1", "{'a':1}", "1,", "{", "]", '{"a": 1', "[1, 2", "nul", "tru", "+1"
          "1.0", "-0", "1e5", "-1.5E-3", "01", "1.", ".5", "Infinity", "NaN", "-Infinity", "true", "false", "True", "False", "None", "null",
          '"quoted"', "'quoted'", "b'x'", "[]", "{}", "()", "[[]]", '{"a": {"b": [1, null]}}', "[1, 2, 3]", "(1,)", "{1, 2}", "1 + 1", "__import__('os')",
          "{[1]: 2}", "{{}}", "{[1, 2]}", "{{1: 2}: 3}", "{(1, [2]): 3}", "[1, 2", "(1, 2", "1 if 2 else 3", "[x for x in y]", "f'{a}'", "0o17", "1j", "b'\\xff'",
-         "2020-01-01T00:00:00+00:00", "2020-01-01 00:00:00", "00:00", "P1D", "PT", "-P1D", "12345678-1234-1234-1234-123456789012", "a/b", "a+", "\\d"]
+         "\ufeffx", "\ufeff12", "\ufeff[1]", "x\ufeff", "2020-01-01T00:00:00+00:00", "2020-01-01 00:00:00", "00:00", "P1D", "PT", "-P1D", "12345678-1234-1234-1234-123456789012", "a/b", "a+", "\\d"]
 
 
 def units(tier):
-    return E.ranges(SETS[tier], STEP) + [("serdes", 0, 1)]
+    return E.ranges(SETS[tier], STEP) + [("serdes", 0, 1), ("bare", 0, 1)]
+
+
+BARE_TARGETS = ["list", "dict", "tuple", "set", "frozenset", "typing.List", "typing.Dict", "typing.Tuple", "typing.Set", "typing.Sequence", "typing.MutableSequence",
+                "typing.Iterable", "typing.Collection", "typing.Mapping", "typing.MutableMapping", "collections.abc.Sequence", "collections.abc.Iterable",
+                "collections.abc.Collection", "collections.abc.Mapping", "collections.deque", "typing.Deque"]
+BARE_TEXTS = ["[1, 2]", '{"a": 1}', '["a", [1]]', "abc", "", "1", "null", "(1, 2)", "{'a': 1}", "[]", "{}", "a,b", " [1] "]
+
+
+def run_bare(res):
+    """(4) unsubscripted concrete and abstract containers as targets (their members pass through, the CARRIER still has to be decoded)"""
+    import collections
+    import collections.abc
+    import typing
+
+    import typelib
+
+    ns = {"typing": typing, "collections": collections}
+    for tsrc in BARE_TARGETS:
+        T_ = eval(tsrc, dict(ns))  # noqa: S307 - fixed table
+        cold.clear_all()
+        res.programs += 1
+        bu = call(typelib.unmarshaller, T_)
+        if not bu.ok:
+            res.violation(f"C14/bare/{tsrc}/build:{bu.excname}", f"unmarshaller({tsrc}) cannot be built: {bu!r}", {"kind": "bare"})
+            continue
+        for s in BARE_TEXTS:
+            outs = [(c, call(bu.val, inputs.carry(s, c))) for c in inputs.CARRIERS]
+            res.evals += len(outs)
+            base = outs[0][1]
+            key = h64("bare", tsrc, s, "ok" if base.ok else base.excname)
+            res.outcomes.add(key)
+            if base.ok:
+                res.nontrivial.add(key)
+            for c, o in outs[1:]:
+                if not ((o.ok == base.ok) and (not o.ok or same(o.val, base.val))):
+                    what = "raises:" + o.excname if (base.ok and not o.ok) else ("accepts" if not base.ok else "differs")
+                    res.violation(f"C14/bare/{tsrc}/{c}-{what}/{E.text_feature(s)}",
+                                  f"unmarshal({tsrc}, {s!r}) as str -> {short(base.val if base.ok else base.exc, 80)} but as {c} -> {short(o.val if o.ok else o.exc, 80)}", {"kind": "bare"})
+                    break
 
 
 def meta(tier):
@@ -240,6 +279,9 @@ def run_unit(unit, tier, res):
     if unit[0] == "serdes":
         run_serdes(res)
         return
+    if unit[0] == "bare":
+        run_bare(res)
+        return
     s, a, b = unit
     for off, term in enumerate(E.unit_terms(unit)):
         run_term(s, a + off, term, tier, res)
@@ -248,6 +290,9 @@ def run_unit(unit, tier, res):
 def replay(case, tier, res):
     if case.get("kind") == "serdes":
         run_serdes(res)
+        return
+    if case.get("kind") == "bare":
+        run_bare(res)
         return
     term = E.term_set(case["set"])[case["i"]]
     run_term(case["set"], case["i"], term, tier, res, only=case.get("only"))
